@@ -381,6 +381,9 @@ def word_graph_dfa_specs(draw, max_hubs=3):
                     w = w[:3]
                 else:
                     w = first + "".join(S[draw(st.integers(0, len(S) - 1))] for _ in range(draw(st.integers(0, 2))))
+                # at most 5 intermediate states in all: the expression extracted from a DFA grows exponentially with the number of states
+                room = 5 - sum(len(x) - 1 for _, x, _ in edges)
+                w = w[:max(1, min(len(w), room + 1))]
                 used.append(w)
                 edges.append((h, w, draw(st.integers(0, m - 1))))
     n_mid = sum(len(w) - 1 for _, w, _ in edges)
